@@ -589,9 +589,26 @@ fn dump_fn<'tcx>(tcx: TyCtxt<'tcx>, ldid: rustc_hir::def_id::LocalDefId, out: &m
                                 ops.push(&ab.0);
                                 ops.push(&ab.1);
                             }
-                            Rvalue::Aggregate(_, os) => {
+                            Rvalue::Aggregate(k, os) => {
                                 for o in os.iter() {
                                     ops.push(o);
+                                }
+                                // field-less enum variants (`&TokenType::EndIf`): record the variant as a pseudo constant
+                                if let AggregateKind::Adt(did, vi, _, _, _) = &**k {
+                                    if os.is_empty() {
+                                        let adt = tcx.adt_def(*did);
+                                        if !firstc {
+                                            out.push(',');
+                                        }
+                                        firstc = false;
+                                        let _ = write!(
+                                            out,
+                                            "[\"c\",{},{},{{\"variant\":{}}}]",
+                                            esc(&dp(tcx, *did)),
+                                            esc(&adt.variant(*vi).name.to_string()),
+                                            esc(&adt.variant(*vi).name.to_string())
+                                        );
+                                    }
                                 }
                             }
                             _ => {}
